@@ -35,6 +35,7 @@ ASSUMPTIONS = ["renderer stub on symbolic paths (the components are constructed 
 REQUIRED_REACH = ['C18.position.x', 'C18.position.row', 'C18.components.complete', 'C18.width', 'C18.components', 'C18.unchanged.operations', 'C18.unchanged.retained', 'C18.unchanged.schedule', 'C18.unchanged.acquisition', 'C18.unknown_channel']
 EXHAUSTIVE = {'quick': False, 'thorough': False}
 JOB_OPTS = {'quick': dict(max_paths=2500, max_seconds=600, twin_every=2), 'thorough': dict(max_paths=20000, max_seconds=2000, twin_every=4)}
+TRUNCATION_OK = {'quick': 4, 'thorough': 20}   # sampled tier: this many random jobs may exhaust their path/time budget (listed as truncated in the evidence)
 
 ALPHA = [['W', 0, 'ALL'], ['W', 3, 'MW'], ['G', 'Rx180', [0]], ['G', 'Ry90', [5]], ['G', 'Reset', [3]], ['G', 'CPhase', [0, 3]], ['G', 'CPhase', [5, 3]], ['G', 'CPhase', [5, 7]], ['M', 5, 'a'], ['M', 0, 'b'], ['B', [0, 3]],
          ['B', [0, 3, 5]], ['G', 'VirtualPark', [3]], ['V', 'VirtualVacant', 5, 'FL'], ['V', 'VirtualEmpty', 0, 'ALL'], ['T', 'VirtualTwoQubitVacant', [0, 5], 'FL'], ['G', 'Hadamard', [5]],
